@@ -21,6 +21,12 @@ def msg_ctor_calls(node: ast.AST):
 
 
 def check(ctx: Ctx) -> None:
+    _check(ctx)
+    from ..engines.typestate import check_wrappers
+    check_wrappers(ctx, ['split'])
+
+
+def _check(ctx: Ctx) -> None:
     split_rules(ctx, {"KEY", "PURE", "Q1", "CUT", "RESTRIKE", "COUNT"}, explain=True)
 
 
